@@ -28,7 +28,7 @@ def plan(tier, seed):
 def floors(tier):
     return {"distinct_nontrivial": 300, "cls:variant:one": 500, "cls:variant:in": 300, "cls:variant:contains": 300,
             "cls:variant:notin": 300, "cls:variant:notcontains": 200, "cls:variant:or_in": 150, "cls:variant:not_and_in": 150,
-            "cls:variant:and_in": 150, "cls:variant:one_setof": 100, "cls:variant:in_with_list": 100, "cls:variant:index0": 100, "cls:variant:prebound_in": 150, "cls:variant:prebound_notin": 100,
+            "cls:variant:and_in": 150, "cls:variant:one_setof": 100, "cls:variant:in_with_list": 100, "cls:variant:index0": 100, "cls:variant:two_lists": 100, "cls:variant:two_tests_same_parent": 100, "cls:concatenate_of_flatten_over_lists_of_lists": 100, "cls:variant:prebound_in": 150, "cls:variant:prebound_notin": 100,
             "cls:parent_is_a_query_with_alternatives": 300, "cls:parent_domain_without_parents": 100, "cls:two_level_concatenate": 300, "cls:plain_scalar_values": 100, "cls:all_empty": 30, "cls:scalar": 100,
             "re:Concatenate(@.*)?\\.enter": 2000}
 
@@ -43,7 +43,7 @@ def cases(spec, ctx):
         order = list(range(5))
         rng.shuffle(order)
         case = {"world": w, "variant": rng.choice(["one", "one", "in", "contains", "notin", "notcontains", "or_in", "not_and_in", "and_in",
-                                                   "one_setof", "in_with_list", "index0"]),
+                                                   "one_setof", "in_with_list", "index0", "two_lists", "two_tests_same_parent"]),
                 "order": order, "scalar": rng.random() < 0.1, "caching": rng.random() < 0.7, "thr": rng.randint(1, 4)}
         if rng.random() < 0.08:
             # scalar inner values, falsy ones included: each counts as one element of the concatenation
@@ -53,6 +53,12 @@ def cases(spec, ctx):
         elif rng.random() < 0.2:
             # two levels: concatenate(flatten(p.items).subs); inner objects are shared between parents
             case["nested"] = [[rng.randrange(5) for _ in range(rng.randint(0, 3))] for _ in range(5)]
+            case["scalar"] = False
+            case["variant"] = rng.choice(["one", "one", "in", "notin"])
+        elif rng.random() < 0.1:
+            # concatenate(flatten(p.items)) where the items are themselves lists: one fully flat list
+            case["nested_lists"] = [[[rng.randrange(5) for _ in range(rng.randint(0, 3))] for _ in range(rng.randint(0, 3))]
+                                    for _ in w["parents"]]
             case["scalar"] = False
             case["variant"] = rng.choice(["one", "one", "in", "notin"])
         else:
@@ -89,6 +95,11 @@ def check_case(case, ctx):
         flat = [s_ for p in ps for x in p.items for s_ in x.subs]
         es = subs_pool          # the outer variable and the labels range over the second-level objects
         ctx.cls("cls:two_level_concatenate")
+    elif case.get("nested_lists"):
+        for p_, ll in zip(ps, case["nested_lists"]):
+            p_.items = [[es[i] for i in inner] for inner in ll]
+        flat = [x for p_ in ps for inner in p_.items for x in inner]
+        ctx.cls("cls:concatenate_of_flatten_over_lists_of_lists")
     else:
         flat = [p.one for p in ps] if case["scalar"] else [x for p in ps for x in p.items]
     pq = case.get("parent_query")
@@ -118,6 +129,8 @@ def check_case(case, ctx):
                 p = an(entity(p, or_(p.k == pq["k1"], p.k > pq["k2"])))
             if case.get("nested"):
                 allv = concatenate(flatten(p.items).subs)
+            elif case.get("nested_lists"):
+                allv = concatenate(flatten(p.items))
             else:
                 allv = concatenate(p.one) if case["scalar"] else concatenate(p.items)
             thr = case.get("thr", 2)
@@ -126,6 +139,12 @@ def check_case(case, ctx):
             elif v == "one_setof":
                 from entity_query_language import set_of
                 q = an(set_of([allv]))
+            elif v == "two_lists":
+                # two concatenations (over two parent variables) selected together: one row holding both lists
+                from entity_query_language import set_of
+                p_b = let(Par, list(reversed(pdom)))
+                allv_b = concatenate(p_b.one) if case["scalar"] else concatenate(p_b.items)
+                q = an(set_of([allv, allv_b]))
             else:
                 d = let(E, dom)
                 cond = {"in": lambda: in_(d, allv), "contains": lambda: contains(allv, d), "notin": lambda: not_(in_(d, allv)),
@@ -134,7 +153,9 @@ def check_case(case, ctx):
                         "not_and_in": lambda: not_(and_(d.n > thr, in_(d, allv))),
                         "and_in": lambda: and_(d.n > thr, in_(d, allv)),
                         "prebound_in": lambda: in_(d, allv), "prebound_notin": lambda: not_(in_(d, allv)),
-                        "in_with_list": lambda: in_(d, allv), "index0": lambda: d == allv[0]}[v]()
+                        "in_with_list": lambda: in_(d, allv), "index0": lambda: d == allv[0],
+                        # two concatenations over the SAME parent variable in one query
+                        "two_tests_same_parent": lambda: and_(in_(d, allv), in_(d, concatenate(p.one)))}[v]()
                 if v == "in_with_list":         # the combined list selected next to the member
                     from entity_query_language import set_of
                     q = an(set_of([d, allv], cond))
@@ -151,6 +172,7 @@ def check_case(case, ctx):
                 if pq:
                     p3 = an(entity(p3, or_(p3.k == pq["k1"], p3.k > pq["k2"])))
                 q3 = an(entity(concatenate(flatten(p3.items).subs) if case.get("nested") else
+                               concatenate(flatten(p3.items)) if case.get("nested_lists") else
                                concatenate(p3.one) if case["scalar"] else concatenate(p3.items)))
             got3 = list(q3.evaluate())
         except Exception as e:
@@ -160,6 +182,16 @@ def check_case(case, ctx):
     finally:
         enable_caching()
     lists_next_to_members = None
+    if v == "two_lists":
+        second = [r[allv_b] for r in got] + [r[allv_b] for r in got2]
+        pars_b = [p_ for p_ in reversed(pdom) if isinstance(p_, Par)]
+        flat_b = [p_.one for p_ in pars_b] if case["scalar"] else [x for p_ in pars_b for x in p_.items]
+        for l_ in second:
+            if not isinstance(l_, (list, tuple)) or len(l_) != len(flat_b) or any(a is not b for a, b in zip(l_, flat_b)):
+                ctx.fail("CONCATENATE:second_list_of_two", {"expected_len": len(flat_b), "observed": repr(l_)[:200]})
+                return
+        got, got2 = [r[allv] for r in got], [r[allv] for r in got2]
+        v = "one"
     if v == "one_setof":
         got, got2 = [r[allv] for r in got], [r[allv] for r in got2]
         v = "one"
@@ -181,6 +213,8 @@ def check_case(case, ctx):
         sel = {"in": member, "contains": member, "notin": lambda x: not member(x), "notcontains": lambda x: not member(x),
                "or_in": lambda x: member(x) or x.n == thr, "not_and_in": lambda x: not (x.n > thr and member(x)),
                "and_in": lambda x: x.n > thr and member(x), "in_with_list": member,
+               "two_tests_same_parent": lambda x: member(x) and any(x is p_.one for p_ in pdom if isinstance(p_, Par)
+                                                                   and (not pq or p_.k == pq["k1"] or p_.k > pq["k2"])),
                "index0": lambda x: bool(flat) and x is flat[0], "prebound_in": lambda x: x.n != thr and member(x),
                "prebound_notin": lambda x: x.n != thr and not member(x)}[v]
         exp = [lab[id(x)] for x in dom if sel(x)]
